@@ -17,6 +17,9 @@ S == "/"
 MCEscapes == {"%2F", "%2f", "%20", "%41", "%C3%A9", "%C3%B6", "%c3%b6", "%5E"}
 \* option text that must be percent-encoded in a path: "U+F6" stands for the letter o-umlaut (the harness writes it
 \* as UTF-8 into the route option), "^" for itself
+\* upstream answer scripts that break off: Content-Length announced but the connection closed after part of the
+\* body; chunked without the last chunk (after some / no body bytes, closed or reset); closed before any header
+MCFaulty  == {"cutcl", "cutchunked", "cutchunked0", "rstchunked", "cuthead"}
 MCEncoded == [t \in {"U+F6", "^"} |-> IF t = "U+F6" THEN "%C3%B6" ELSE "%5E"]
 MCDecoded == [t \in {"%C3%B6", "%c3%b6", "%5E"} |-> IF t = "%5E" THEN "^" ELSE "U+F6"]
 
@@ -29,7 +32,8 @@ BaseCase == [prop |-> Prop, sub |-> "", tls |-> FALSE, kind |-> "http", method |
              routes |-> <<>>, cfgip |-> FALSE, cfgtls |-> FALSE, cfgsts |-> FALSE,
              nrstatus |-> 404, nrpage |-> "", resp |-> "ok",
              peer |-> "v4",          \* the client connects over 127.0.0.1 ("v4") or ::1 ("v6")
-             cfgspell |-> "canon"]   \* configured header names in canonical MIME spelling, or as people write them ("odd": X-TLS, X-Client-IP)
+             cfgspell |-> "canon",
+             accesslog |-> FALSE]    \* an access logger is configured (must not change what anybody receives)   \* configured header names in canonical MIME spelling, or as people write them ("odd": X-TLS, X-Client-IP)
 Ordinary(src, strip, prepend, hostopt, tq) ==
     [NoRouteRec EXCEPT !.src = src, !.strip = strip, !.prepend = prepend, !.hostopt = hostopt, !.tquery = tq]
 Tpl(scheme, host, pre, var, slash, q) == [scheme |-> scheme, host |-> host, pre |-> pre, var |-> var, slash |-> slash, query |-> q]
@@ -49,7 +53,8 @@ C07Paths    == << <<S, "strip">>,                                           \*  
                   <<S, "strip", S, "caf", "%C3%A9">>,                       \*  9 /strip/caf%C3%A9
                   <<S, "strip", S, "a'b;c=d@e">> >>                         \* 10 sub-delimiters sent unescaped
 C07Queries  == << <<>>, <<"a=1", "b=%2F">>, <<"q=x%20y+z">> >>
-C07Strips   == << <<>>, <<S, "strip">>, <<S, "strip", S, "zz">> >>          \* the last one never applies
+C07Strips   == << <<>>, <<S, "strip">>, <<S, "strip", S, "zz">>,            \* the third one never applies,
+                  <<S, "strip", S>> >>                                      \* the fourth ends in a slash (leaves a relative rest)
 C07Prepends == << <<>>, <<S, "pre">>, <<"pre">> >>
 C07HostOpts == <<"", "dst", "name">>
 C07TQs      == << <<>>, <<"t=1">>, <<"t=1", "u=2">> >>
@@ -58,8 +63,10 @@ C07NRPaths  == << <<S, "other", S, "x">>, <<S>> >>                          \* n
 C07NRStatus == <<404, 503, 999>>
 C07NRPages  == <<"", "page">>
 
-\* combinations on which strip-then-prepend can be read in two ways (is the rest made absolute before the
-\* prefix is put in front?) are left out: the rest after strip is empty or relative and a prefix is prepended
+\* strip leaving an empty or relative rest together with prepend: the documentation shows strip producing an absolute
+\* path ("forward /path/to/file as /to/file") and "prepending is done after stripping", so the rest is made absolute
+\* first and the prefix put in front of that (/strip -> /pre/, /stripme/x -> /pre/me/x).  (C07Ambiguous only names
+\* these combinations; they are part of the universe.)
 C07Ambiguous(p, s, pp) == LET rest == Drop(C07Paths[p], Len(C07Strips[s])) IN
                           /\ C07Prepends[pp] # <<>> /\ C07Strips[s] # <<>> /\ IsPrefix(C07Strips[s], C07Paths[p])
                           /\ (rest = <<>> \/ rest[1] # S)
@@ -84,7 +91,16 @@ C07Interim     == << <<"none", "hints-created">>, <<"none", "hints-error">>, <<"
                      <<"none", "hints-hints-notfound">>, <<"expect", "created">>, <<"expect", "error">>,
                      <<"expect", "ok">>, <<"expect", "hints-created">> >>
 
-C07Outer == {<<"fwd", m, p>> : m \in DOMAIN C07Methods, p \in DOMAIN C07Paths}
+\* --- never sliced: final statuses over the whole range an HTTP status line can carry, with and without access log
+C07Statuses == <<"st200", "st299", "st300", "st404", "st499", "st500", "st599", "st600", "st799", "st999">>
+\* --- never sliced: upstreams that die before their answer is complete
+C07Faults   == <<"cutcl", "cutchunked", "cutchunked0", "rstchunked", "cuthead">>
+
+\* --- never sliced: strip leaving nothing or a relative rest, with and without a prefix put in front
+C07Outer == {<<"status", m, p>> : m \in {1, 2}, p \in {3}}
+            \cup {<<"rest", m, p>> : m \in {1, 2}, p \in {1, 2, 3, 4, 7}}
+            \cup {<<"fault", m, p>> : m \in {1, 2}, p \in {3, 4}}
+            \cup {<<"fwd", m, p>> : m \in DOMAIN C07Methods, p \in DOMAIN C07Paths}
             \cup {<<"nr", m, p>> : m \in DOMAIN C07Methods, p \in DOMAIN C07NRPaths}
             \cup {<<"enc", m, p>> : m \in {1, 2}, p \in DOMAIN C07EncPaths}
             \cup {<<"amp", m, p>> : m \in {1, 2}, p \in {3, 4}}
@@ -97,13 +113,26 @@ C07Inner(o) ==
                            !.hdrs = C07HR[t[6]][1], !.resp = C07HR[t[6]][2]] :
           t \in { u \in (DOMAIN C07Queries) \X (DOMAIN C07Strips) \X (DOMAIN C07Prepends) \X (DOMAIN C07HostOpts)
                          \X (DOMAIN C07TQs) \X (DOMAIN C07HR) :
-                  /\ ~C07Ambiguous(o[3], u[2], u[3])
                   /\ Keep(o[2] + 7 * o[3] + 3 * u[1] + 11 * u[2] + 13 * u[3] + 17 * u[4] + 19 * u[5] + 23 * u[6]) } }
     ELSE IF o[1] = "enc" THEN
         { [BaseCase EXCEPT !.sub = "enc", !.method = C07Methods[o[2]], !.path = C07EncPaths[o[3]],
                            !.tls = ((o[2] + o[3] + t[1] + t[2] + t[3]) % 2 = 0), !.query = C07Queries[t[3]],
                            !.routes = << Ordinary(<<S>>, C07EncStrips[t[1]], C07EncPrepends[t[2]], "", <<>>) >>] :
-          t \in { u \in (DOMAIN C07EncStrips) \X (DOMAIN C07EncPrepends) \X {1, 2} : ~C07EncAmbiguous(o[3], u[1], u[2]) } }
+          t \in (DOMAIN C07EncStrips) \X (DOMAIN C07EncPrepends) \X {1, 2} }
+    ELSE IF o[1] = "status" THEN
+        { [BaseCase EXCEPT !.sub = "status", !.method = C07Methods[o[2]], !.path = C07Paths[o[3]], !.tls = (t[2] = 2),
+                           !.resp = C07Statuses[t[1]], !.accesslog = (t[3] = 2),
+                           !.routes = << Ordinary(<<S, "strip">>, <<>>, <<>>, "", <<>>) >>] :
+          t \in (DOMAIN C07Statuses) \X {1, 2} \X {1, 2} }
+    ELSE IF o[1] = "rest" THEN
+        { [BaseCase EXCEPT !.sub = "rest", !.method = C07Methods[o[2]], !.path = C07Paths[o[3]], !.tls = (t[3] = 2),
+                           !.routes = << Ordinary(<<S, "strip">>, C07Strips[t[1]], C07Prepends[t[2]], "", <<>>) >>] :
+          t \in {2, 4} \X (DOMAIN C07Prepends) \X {1, 2} }
+    ELSE IF o[1] = "fault" THEN
+        { [BaseCase EXCEPT !.sub = "fault", !.method = C07Methods[o[2]], !.path = C07Paths[o[3]], !.tls = (t[2] = 2),
+                           !.resp = C07Faults[t[1]], !.accesslog = (t[3] = 2),
+                           !.routes = << Ordinary(<<S, "strip">>, C07Strips[2], <<>>, "", <<>>) >>] :
+          t \in (DOMAIN C07Faults) \X {1, 2} \X {1, 2} }
     ELSE IF o[1] = "amp" THEN
         { [BaseCase EXCEPT !.sub = "amp", !.method = C07Methods[o[2]], !.path = C07Paths[o[3]],
                            !.tls = ((o[2] + o[3] + t[1] + t[2] + t[3]) % 2 = 0), !.query = C07AmpQueries[t[1]],
@@ -120,8 +149,9 @@ C07Inner(o) ==
         { [BaseCase EXCEPT !.sub = "noroute", !.method = C07Methods[o[2]], !.path = C07NRPaths[o[3]], !.query = C07Queries[t[1]],
                            !.tls = ((o[2] + o[3] + t[1] + t[2] + t[3] + t[4]) % 2 = 0),
                            !.routes = IF t[4] = 1 THEN <<>> ELSE << Ordinary(<<S, "strip">>, <<>>, <<>>, "", <<>>) >>,
-                           !.nrstatus = C07NRStatus[t[2]], !.nrpage = C07NRPages[t[3]], !.hdrs = "multi"] :
-          t \in (DOMAIN C07Queries) \X (DOMAIN C07NRStatus) \X (DOMAIN C07NRPages) \X {1, 2} }
+                           !.nrstatus = C07NRStatus[t[2]], !.nrpage = C07NRPages[t[3]], !.hdrs = "multi",
+                           !.accesslog = (t[5] = 2)] :
+          t \in (DOMAIN C07Queries) \X (DOMAIN C07NRStatus) \X (DOMAIN C07NRPages) \X {1, 2} \X {1, 2} }
 
 -----------------------------------------------------------------------------
 \* C08: forwarding headers.  Outer: which managed headers the client forges (a subset, by bit mask) and how
@@ -130,7 +160,7 @@ C08Names  == <<"clientip", "xff", "xrealip", "tlshdr", "xfproto", "forwarded", "
 Pow2(k)   == IF k = 0 THEN 1 ELSE IF k = 1 THEN 2 ELSE IF k = 2 THEN 4 ELSE IF k = 3 THEN 8 ELSE IF k = 4 THEN 16
              ELSE IF k = 5 THEN 32 ELSE IF k = 6 THEN 64 ELSE 128
 Bit(n, k) == (n \div Pow2(k - 1)) % 2 = 1
-C08Styles == <<"once", "twice", "odd">>
+C08Styles == <<"once", "twice", "odd", "truefirst", "truelast">>
 C08Forged(n, st) == [h \in {C08Names[k] : k \in DOMAIN C08Names} |->
                         LET k == CHOOSE j \in DOMAIN C08Names : C08Names[j] = h IN
                         IF Bit(n, k) THEN C08Styles[st] ELSE "absent"]
@@ -140,14 +170,15 @@ C08HostOpts == <<"", "dst", "name">>
 C08RHosts == <<"plain", "ported">>
 \* --- never sliced: the peer's own address in the client's X-Forwarded-For, IPv4 and IPv6 peers, configured header
 \* names in the spelling people use.  Outer n >= 1000: <<1000 + xff style, others forged?>>
-C08XffStyles == <<"absent", "once", "twice", "sfx", "pfx", "dup">>
+C08XffStyles == <<"absent", "once", "twice", "sfx", "pfx", "dup", "truefirst">>
+C08OtherStyles == <<"absent", "once", "truefirst", "truelast">>
 C08PeerCfgs  == << <<TRUE, TRUE, TRUE, "canon">>, <<TRUE, TRUE, TRUE, "odd">>, <<FALSE, FALSE, FALSE, "canon">> >>
-C08Outer  == ({<<n, st>> : n \in 0..255, st \in DOMAIN C08Styles} \ {<<0, 2>>, <<0, 3>>})
-             \cup {<<1000 + x, y>> : x \in DOMAIN C08XffStyles, y \in {1, 2}}
+C08Outer  == ({<<n, st>> : n \in 0..255, st \in DOMAIN C08Styles} \ {<<0, st>> : st \in 2..5})
+             \cup {<<1000 + x, y>> : x \in DOMAIN C08XffStyles, y \in DOMAIN C08OtherStyles}
 C08PeerInner(o) ==
     { [BaseCase EXCEPT !.sub = "peer", !.tls = (t[1] = 2), !.kind = C08Kinds[t[2]], !.path = <<S, "h", S, "x">>,
                        !.forged = [h \in DOMAIN AllAbsent |-> IF h = "xff" THEN C08XffStyles[o[1] - 1000]
-                                                              ELSE IF o[2] = 2 THEN "once" ELSE "absent"],
+                                                              ELSE C08OtherStyles[o[2]]],
                        !.xfpval = IF t[1] = 2 THEN "http" ELSE "https",
                        !.cfgip = C08PeerCfgs[t[3]][1], !.cfgtls = C08PeerCfgs[t[3]][2], !.cfgsts = C08PeerCfgs[t[3]][3],
                        !.cfgspell = C08PeerCfgs[t[3]][4],
